@@ -101,12 +101,14 @@ UserFns == [
   U_OR     |-> Fn("U_OR", N_or, <<TBool, TBool>>, TBool, TRUE),
   U_NOT    |-> Fn("U_NOT", N_not, <<TBool>>, TBool, FALSE),
   U_GPOLY  |-> Fn("U_GPOLY", N_g, <<A>>, TNum, FALSE),            \* g :: a -> num   = 1
-  U_GLIST  |-> Fn("U_GLIST", N_g, <<LA>>, TNum, FALSE),           \* g :: list[a] -> num = 2
+  U_GLIST  |-> Fn("U_GLIST", N_g, <<LA>>, TStr, FALSE),           \* g :: list[a] -> str = "L"
   U_GNUM   |-> Fn("U_GNUM", N_g, <<TNum>>, TNum, FALSE)           \* g :: num -> num = 3 (mono)
 ]
 \* function table of an engine: functions registered before the first compilation
 \* come first, then the built-ins (registered lazily by the first compilation)
-FunTable(pre) == [i \in 1..Len(pre) |-> UserFns[pre[i]]] \o Builtins
+\* (and those registered after it come last)
+FunTable2(pre, post) == [i \in 1..Len(pre) |-> UserFns[pre[i]]] \o Builtins \o [i \in 1..Len(post) |-> UserFns[post[i]]]
+FunTable(pre) == FunTable2(pre, <<>>)
 IsUser(f) == f.id \in DOMAIN UserFns \/ f.id = "U_INC"
 
 (* ---------------- results ---------------- *)
@@ -222,7 +224,7 @@ ApplyBuiltin(id, a) ==
     [] id = "U_F" -> PNum(NInt(Len(a[1].els) + Len(a[2].els)))
     [] id = "U_NOT" -> PV(VBool(~a[1].v))
     [] id = "U_GPOLY" -> PNum(NInt(1))
-    [] id = "U_GLIST" -> PNum(NInt(2))
+    [] id = "U_GLIST" -> PV(VStr(<<76>>))
     [] id = "U_GNUM" -> PNum(NInt(3))
     [] id = "U_INC" -> PNum(NumAdd(a[1].v, One))
     [] OTHER -> [st |-> "stuck", kind |-> "no-such-function"]
@@ -353,9 +355,10 @@ TEnvOf(venv) == [i \in 1..Len(venv) |-> [n |-> venv[i].n, t |-> TypeOfVal(venv[i
 ConformingEnv(venv) == \A i \in 1..Len(venv) : WellFormed(venv[i].v)
 
 \* whole pipeline from a core tree: check, then evaluate
-Run(e, venv, pre) ==
-  LET funs == FunTable(pre)
+Run2(e, venv, pre, post) ==
+  LET funs == FunTable2(pre, post)
       c == Check(e, TEnvOf(venv), funs) IN
   IF ~c.ok THEN [acc |-> FALSE, why |-> c.why]
   ELSE [acc |-> TRUE, ty |-> c.ty, e |-> c.e, r |-> Eval(c.e, venv, funs, <<>>)]
+Run(e, venv, pre) == Run2(e, venv, pre, <<>>)
 =============================================================================
